@@ -80,7 +80,7 @@ CHECKS["C09"] = dict(
     technique="abort-site census over MIR (Assert terminators with overflow checks on, unwrap/index/panic callees) classified by interval/affine abstract interpretation with attainability (exactness) tracking",
     text="Enumerates every potential abort site reachable from executing an instruction (all interpreter productions, all helpers, int_13/int_21: about "
          "470 sites) and classifies each PROVED / DEFINITE (witness) / UNDECIDED; proves every vm.mem index < 2^20. Only DEFINITE sites are violations; "
-         "UNDECIDED ones are listed in the evidence and not claimed. Termination of the two service loops is not decided.",
+         "UNDECIDED ones are listed in the evidence and not claimed. The segment:offset helper is decided path by path (R4): every path's result is below 2^20. Termination of the two service loops is not decided.",
     design="DESIGN.md §6 C09")
 
 CHECKS["C10"] = dict(
